@@ -38,6 +38,7 @@ def main():
     args = ap.parse_args()
     global REPO
     env = dict(os.environ)
+    env["VERIF_SELFTEST"] = "1"  # evidence of these runs goes to .work/evidence-scratch, never to evidence/
     if args.scratch:
         import shutil
         scratch = f"/tmp/selftest-repo-{os.getpid()}"
